@@ -546,3 +546,38 @@ Theorem C12_rotation_example :
     ([Ran; BadToken; Ran], Some (r_fresh ex_req_good)) /\ r_fresh ex_req_good <> [].
 Proof. exact ex_rotation. Qed.
 Print Assumptions C12_rotation_example.
+
+(* ---- round 6: the require_csrf view option at two levels (class __view_defaults__ / add_view call), positional directive *)
+Theorem C12_view_option_precedence_documented : forall cls call, explicit_of cls call = spec_explicit cls call.
+Proof. exact explicit_is_spec. Qed.
+Print Assumptions C12_view_option_precedence_documented.
+
+Theorem C12_call_level_wins : forall cls v, explicit_of cls (Some v) = v.
+Proof. exact call_level_wins. Qed.
+Print Assumptions C12_call_level_wins.
+
+Theorem C12_class_level_only_when_call_silent : forall cls,
+  explicit_of cls None = match cls with Some v => v | None => None end.
+Proof. exact class_level_only_when_call_silent. Qed.
+Print Assumptions C12_class_level_only_when_call_silent.
+
+Theorem C12_call_none_hands_over_to_default : forall c cls,
+  c_explicit c = explicit_of cls (Some None) ->
+  csrf_enabled c = spec_in_force c /\
+  spec_in_force c = (o_require (spec_effective c) && negb (c_exception_only c)
+                     && (truthy (o_token (spec_effective c)) || truthy (o_header (spec_effective c)))).
+Proof. exact call_none_hands_over_to_default. Qed.
+Print Assumptions C12_call_none_hands_over_to_default.
+
+Theorem C12_class_opt_out_stands_when_call_silent : forall pr c r,
+  c_explicit c = explicit_of (Some (Some false)) None -> view_outcome_p pr c r = Ran.
+Proof. exact class_opt_out_stands_when_call_silent. Qed.
+Print Assumptions C12_class_opt_out_stands_when_call_silent.
+
+Theorem C12_facts_positional_order : sdc_positional_order_ok = true.
+Proof. exact Facts_ok_positional. Qed.
+Print Assumptions C12_facts_positional_order.
+
+Theorem C12_facts_view_option_plumbing : view_option_plumbing_ok = true.
+Proof. exact Facts_ok_plumbing. Qed.
+Print Assumptions C12_facts_view_option_plumbing.
